@@ -639,10 +639,11 @@ class Interp:
                               let_mut=st['pat'].get('mut', False))
                 c = self.bind(st['pat'], v, env)
                 if st.get('else') is not None and c != TRUE:
-                    # let-else: diverging branch
+                    # let-else: diverging branch, then the rest of the block runs under the pattern's condition
                     self.frame['conds'].append(self.neg(c))
                     self.expr(st['else'], env.child())
                     self.frame['conds'].pop()
+                    self.frame['conds'].append(c)
             elif k == 'ExprStmt':
                 last = i == len(stmts) - 1 and not st['semi']
                 v = self.expr(st['expr'], env, stmt=not last)
@@ -699,6 +700,9 @@ class Interp:
     def e_Binary(self, e, env, **kw):
         if e['op'] in ('&&', '||', '==', '!='):
             return self.cond(e, env)
+        if e['op'].endswith('=') and e['op'] not in ('<=', '>='):
+            op = e['op'][:-1]
+            return self.e_Assign({'k': 'Assign', 'line': e['line'], 'l': e['l'], 'r': {'k': 'Binary', 'line': e['line'], 'op': op, 'l': e['l'], 'r': e['r']}}, env)
         return ('bin', e['op'], self.expr(e['l'], env), self.expr(e['r'], env))
 
     def e_Cast(self, e, env, **kw):
@@ -817,7 +821,7 @@ class Interp:
             self.effect_at(c, 'diverge', what=a[1], line=a[2])
         if b[0] == 'diverge' and b[1] != 'return':
             self.effect_at(self.neg(c), 'diverge', what=b[1], line=b[2])
-        if a[0] == 'diverge' and a[1] in ('return', 'panic', 'todo', 'unimplemented', 'unreachable') and e['else'] is None:
+        if a[0] == 'diverge' and a[1] in ('return', 'panic', 'todo', 'unimplemented', 'unreachable', 'continue', 'break') and e['else'] is None:
             # code after `if c { return .. }` / `if c { panic!() }` runs under !c
             self.frame['conds'].append(self.neg(c))
         arms = [(c, a)]
@@ -852,15 +856,63 @@ class Interp:
             prior.append(c)
         return ('alt', arms)
 
+    def assigned_locals(self, node, out):
+        if isinstance(node, dict):
+            if node.get('k') == 'Assign' and node['l'].get('k') == 'Path' and len(node['l']['path']['segs']) == 1:
+                out.add(node['l']['path']['segs'][0])
+            if node.get('k') == 'Binary' and node.get('op', '').endswith('=') and node['op'] not in ('==', '!=', '<=', '>=') and node['l'].get('k') == 'Path' \
+                    and len(node['l']['path']['segs']) == 1:
+                out.add(node['l']['path']['segs'][0])
+            if node.get('k') == 'Closure':
+                return
+            for v in node.values():
+                self.assigned_locals(v, out)
+        elif isinstance(node, list):
+            for v in node:
+                self.assigned_locals(v, out)
+
     def e_For(self, e, env, **kw):
         src = self.expr(e['expr'], env)
         eid = self.fresh('e')
         src, body0, conds = self.as_pipeline(src, eid)
         env2 = env.child()
         c = self.bind(e['pat'], body0, env2)
+        # locals that are updated in the loop body carry a value from iteration to iteration: a fold
+        names = set()
+        self.assigned_locals(e['body'], names)
+        names = {n for n in names if n in env}
+        before = {n: env[n] for n in names}
+        for n in names:
+            env2[n] = ('accvar', eid, n)
         self.frame['loops'].append((eid, src, conds))
-        self.block(e['body'], env2)
+        n0 = len(self.frame['conds'])
+        self.frame.setdefault('loop_bases', []).append(n0)
+        self.block_in(e['body'], env2)
+        del self.frame['conds'][n0:]   # conditions introduced by `continue` / `break` guards end with the loop body
+        self.frame['loop_bases'].pop()
         self.frame['loops'].pop()
+        for n in sorted(names):
+            step = env2.d.get(n)
+            if step is not None and step != ('accvar', eid, n):
+                env.assign(n, ('fold', src, eid, list(conds), before[n], ('accvar', eid, n), step))
+        return ('tuple', [])
+
+    def block_in(self, b, env):
+        """execute a block in the given scope (no new child scope), so that the loop machinery can read the updated locals"""
+        stmts = b['stmts']
+        for i, st in enumerate(stmts):
+            k = st['k']
+            if k == 'Let':
+                if st['init'] is None:
+                    continue
+                v = self.expr(st['init'], env, let_name=st['pat'].get('name') if st['pat']['k'] == 'PIdent' else None, let_mut=st['pat'].get('mut', False))
+                self.bind(st['pat'], v, env)
+            elif k == 'ExprStmt':
+                v = self.expr(st['expr'], env, stmt=True)
+                if v[0] == 'diverge':
+                    if v[1] not in ('return', 'break', 'continue'):
+                        self.effect('diverge', what=v[1], line=v[2])
+                    break
         return ('tuple', [])
 
     def e_While(self, e, env, **kw):
@@ -885,7 +937,9 @@ class Interp:
         if e['l']['k'] == 'Path' and len(e['l']['path']['segs']) == 1:
             name = e['l']['path']['segs'][0]
             old = env.get(name)
-            pc = self.pathcond()
+            bases = self.frame.get('loop_bases') or []
+            cs = self.frame['conds'][bases[-1]:] if bases else self.frame['conds'][self.frame.get('nconds0', 0):]
+            pc = TRUE if not cs else (cs[0] if len(cs) == 1 else ('and', list(cs)))
             env.assign(name, val if pc == TRUE or old is None else ('alt', [(pc, val), (TRUE, old)]))
         return ('tuple', [])
 
